@@ -66,6 +66,150 @@ class Builtins:
     def b_frac___sub__(self, *a):
         return self._frac('Sub')(*a)
 
+    # ---- election model vocabulary
+    def b_spec_ghost(self, args, kw, st, fr):
+        from .models import ghost_get
+        return self.ex.ok(ghost_get(st, args[0].lit), st)
+
+    def b_spec_in_election(self, args, kw, st, fr):
+        from .models import inC
+        self.ex.election_facts(st)
+        return self.ex.ok(SBool(inC(args[0].t)), st)
+
+    def b_spec_logged_now(self, args, kw, st, fr):
+        from .models import ghost_get, msg_subject, CAND
+        tag, c = args
+        name = self.ex.C.read_field(st, c, 'name')
+        f = z3.And(ghost_get(st, 'lasttag').t == tag.t, msg_subject(ghost_get(st, 'lastmsg').t) == name.t)
+        return self.ex.ok(SBool(f), st)
+
+    def b_spec_msg_names(self, args, kw, st, fr):
+        from .models import msg_subject
+        m, c = args
+        name = self.ex.C.read_field(st, c, 'name')
+        return self.ex.ok(SBool(msg_subject(m.t) == name.t), st)
+
+    def b_spec_seq_len(self, args, kw, st, fr):
+        from .models import seqlen
+        st.assume(seqlen(args[0].t) >= 0)
+        return self.ex.ok(SInt(seqlen(args[0].t)), st)
+
+    def b_spec_seq_at(self, args, kw, st, fr):
+        from .models import seqelem
+        return self.ex.ok(SInt(seqelem(args[0].t, args[1].t)), st)
+
+    def b_spec_some(self, args, kw, st, fr):
+        v = args[0]
+        return self.ex.ok(v.inner if isinstance(v, SOpt) else v, st)
+
+    def b_spec_cand_by_cid(self, args, kw, st, fr):
+        from .models import byCid, CAND
+        k = args[0]
+        if isinstance(k, SOpt):
+            k = k.inner
+        self.ex.election_facts(st)
+        self.ex.cid_facts(st, k.t)
+        st.note_ref(CAND, byCid(k.t))
+        return self.ex.ok(SRef(self.ex.repo.resolve(CAND), byCid(k.t)), st)
+
+    def b_spec_validcid(self, args, kw, st, fr):
+        from .models import validcid
+        k = args[0]
+        if isinstance(k, SOpt):
+            k = k.inner
+        return self.ex.ok(SBool(validcid(k.t)), st)
+
+    def b_spec_scale_S(self, args, kw, st, fr):
+        from .arith import SCALE, scale_facts
+        scale_facts(st, self.ex)
+        return self.ex.ok(SInt(SCALE), st)
+
+    def b_spec_units(self, args, kw, st, fr):
+        "stored units of a V value (scaled instances)"
+        return self.ex.ok(SInt(args[0].t), st)
+
+    def b_spec_whole(self, args, kw, st, fr):
+        "whole(m): the integer k with m == V(k)  (defined when is_whole(m))"
+        from .arith import SCALE, scale_facts
+        m = args[0].t
+        key = ('whole', m.get_id())
+        k = st.ghost.get(key)
+        if k is None:
+            k = fresh_int('whole')
+            st.ghost[key] = k
+        return self.ex.ok(SInt(k), st)
+
+    def b_spec_is_whole(self, args, kw, st, fr):
+        from .arith import SCALE, scale_facts
+        m = args[0].t
+        k = self.b_spec_whole(args, kw, st, fr)[0].val.t
+        if self.ex.instance == 'real':
+            return self.ex.ok(SBool(z3.And(m == z3.ToReal(k), k >= 1)), st)
+        scale_facts(st, self.ex)
+        return self.ex.ok(SBool(z3.And(m == k * SCALE, k >= 1)), st)
+
+    def b_spec_times_whole(self, args, kw, st, fr):
+        w, m = args
+        k = self.b_spec_whole([m], kw, st, fr)[0].val.t
+        if self.ex.instance == 'real':
+            return self.ex.ok(SVal(w.t * z3.ToReal(k)), st)
+        return self.ex.ok(SVal(w.t * k), st)
+
+    def b_spec_exact_arith(self, args, kw, st, fr):
+        return self.ex.ok(SBool(self.ex.instance in ('guarded', 'real')), st)
+
+    def b_spec_instance_is(self, args, kw, st, fr):
+        return self.ex.ok(SBool(self.ex.instance == args[0].lit), st)
+
+    def b_spec_V_of_int(self, args, kw, st, fr):
+        from .arith import lift
+        return self.ex.ok(SVal(lift(self.ex.C, args[0], st)), st)
+
+    def b_spec_field_updated(self, args, kw, st, fr):
+        "field_updated(Class, 'f', obj, newvalue): post array == store(pre array, obj, newvalue)"
+        cls_, fld, obj, new = args
+        pre = self.ex.spec_pre
+        cq = cls_.info.qualname
+        k = self.ex.C.field_kind(cq, fld.lit)
+        post_a = self.ex.C.heap_array(st, cq, fld.lit, k)
+        pre_a = self.ex.C.heap_array(pre, cq, fld.lit, k) if pre is not None else post_a
+        if isinstance(obj, SOpt):
+            obj = obj.inner
+        return self.ex.ok(SBool(post_a == z3.Store(pre_a, obj.t, self.ex.C.unwrap(k, new))), st)
+
+    def b_spec_field_unchanged(self, args, kw, st, fr):
+        cls_, fld = args
+        pre = self.ex.spec_pre
+        cq = cls_.info.qualname
+        k = self.ex.C.field_kind(cq, fld.lit)
+        post_a = self.ex.C.heap_array(st, cq, fld.lit, k)
+        pre_a = self.ex.C.heap_array(pre, cq, fld.lit, k) if pre is not None else post_a
+        return self.ex.ok(SBool(post_a == pre_a), st)
+
+    def b_spec_mem(self, args, kw, st, fr):
+        L, x = args
+        return self.ex.ok(SBool(self.ex.C.abs_mem(L, x, st)), st)
+
+    def b_spec_length(self, args, kw, st, fr):
+        return self.b_len(args, kw, st, fr)
+
+    def b_abs_pop(self, bound, args, kw, st, fr):
+        "list.pop() on an abstract list: returns the last element (the list is not used afterwards: SCAN)"
+        ex = self.ex
+        L = bound
+
+        def ok(s):
+            idx = L.length - 1
+            e = L.elem(idx)
+            s.assume(L.mem(e))
+            for f in L.facts:
+                s.assume(f(e))
+            v = ex.C.wrap(L.ek, e)
+            if isinstance(v, SRef):
+                s.note_ref(v.cname, e)
+            return ex.ok(v, s)
+        return ex.split(L.length >= 1, st, ok, lambda s: ex.exc('IndexError', s))
+
     def b_spec_floor_real(self, args, kw, st, fr):
         "floor of a real-valued spec expression, as an Int"
         x = args[0].t
@@ -474,6 +618,12 @@ class Builtins:
 
     def b_spec_same_ref(self, args, kw, st, fr):
         a, b = args
+        if isinstance(a, SOpt):
+            a = a.inner
+        if isinstance(b, SOpt):
+            b = b.inner
+        if isinstance(a, SNone) or isinstance(b, SNone):
+            return self.ex.ok(SBool(isinstance(a, SNone) and isinstance(b, SNone)), st)
         return self.ex.ok(SBool(a.t == b.t), st)
 
     def b_spec_is_dfmt(self, args, kw, st, fr):
